@@ -38,6 +38,19 @@ class _K:
         return isinstance(o, _K) and o.v == self.v
 
 
+class _E:
+    """equal by v only, hashed by (v, w): violates the hash/eq contract the way jaqalpaq's NamedQubit does"""
+
+    def __init__(self, v, w):
+        self.v, self.w = v, w
+
+    def __hash__(self):
+        return hash((self.v, self.w))
+
+    def __eq__(self, o):
+        return isinstance(o, _E) and o.v == self.v
+
+
 class _C:
     def __init__(self, v):
         self.v = v
@@ -62,6 +75,10 @@ def st_hash_set(i: int, j: int) -> str:
     u |= set((j,))
     if t["r"] != ({i} | {j}):
         return f"in-place set union lost elements: {t['r']}"
+    e = {}
+    e[("g", (_E(i, 1),))] = 1
+    if e.get(("g", (_E(i, 2),))) is not None:
+        return "dict.get found a key that is == but hashes differently (CPython would not)"
     try:
         if int(_C(i)) != i:
             return "int(obj) wrong"
